@@ -348,6 +348,11 @@ def run(ctx):
     if not r["ok"]:
         ctx.violation(dict(stage="proof", kind="theorem or table obligation broken", issues=r["issues"]), has_input=False)
     doc, codes = load_tables()
+    # only findings listed in /verif/known-findings.txt are tolerated
+    listed = vlib.known_findings("C04")
+    for code in list(KNOWN_STATUS):
+        if KNOWN_STATUS[code] not in listed:
+            del KNOWN_STATUS[code]
     try:
         run_render(ctx, doc, codes)
         run_e2e(ctx, doc)
